@@ -253,6 +253,10 @@ func (p *Core) oracleBlock(ci int, res []*sim.TxResult, taps []Tap, diff []sim.C
 		}
 	}
 
+	if len(res) == 1 && strings.HasPrefix(res[0].Spec.Label, "mut-") {
+		p.oracleMut(ci, res[0], taps, diff, pre[res[0].Spec.Tag])
+	}
+
 	// ---- per transaction (C01 no-op, C03 no-op, C04, C05, C06, C09, C10, C14) ----
 	allRedundant := len(res) > 0
 	for _, r := range res {
@@ -287,6 +291,7 @@ func (p *Core) oracleBlock(ci int, res []*sim.TxResult, taps []Tap, diff []sim.C
 			}
 			continue
 		}
+		p.checkDelay(ci, ps, r, lbl, out)
 		if out != "success" {
 			p.noteRefused(ci, ps, lbl, out, pr)
 			p.checkFailedRecvKeepsNothing(ps, r, lbl, out, res, diff)
